@@ -1,5 +1,5 @@
 (* Extraction of the executable models to OCaml (ExtrOcamlBasic only; N/Z/positive stay inductive). *)
-From VF Require Import Bytes Meta Lock Region Freelist Alloc PageBuf Writer Api OpenLock Pages Recover CrashModel Monitor PQ TxCore.
+From VF Require Import Bytes Meta Lock Region Freelist Alloc PageBuf Writer Api OpenLock Pages Recover CrashModel Monitor PQ TxCore PQAck.
 From Coq Require Import ExtrOcamlBasic.
 Extraction Language OCaml.
 Set Extraction KeepSingleton.
@@ -14,7 +14,7 @@ Extraction "model.ml"
   run_batches spec_disk sort_batch
   tx_result tx_next page_result page_next writer_result reader_result ack_result
   open_step close_step
-  tx_begin tx_run tx_commit f_wal
+  tx_begin tx_run tx_commit f_wal ack_pages ack_skips
   parse_from layout rd_run cur_adv aq_run aq_pending aq_contents write_position parse_position id_less
   mon_init mon_step mon_recover chase_full hdr_of image_disk
   read_freelist read_wal write_freelists write_wal recover_image protected_page wal_lookup pred_add pred_add_all
